@@ -113,7 +113,7 @@ def load_known_findings() -> dict:
 
 
 def write_replay(prop: str, ob: Obligation, repo: str) -> str:
-    d = os.path.join(VERIF_DIR, "out", "replay")
+    d = os.path.join(os.environ.get("VERIF_OUT_DIR") or os.path.join(VERIF_DIR, "out"), "replay")
     os.makedirs(d, exist_ok=True)
     path = os.path.join(d, f"{prop}-{ob.rule}-{ob.key}.json")
     with open(path, "w", encoding="utf8") as fh:
